@@ -8,6 +8,7 @@ import (
 	"fmt"
 	"math"
 	"sort"
+	"strings"
 	"sync/atomic"
 	"time"
 
@@ -216,7 +217,7 @@ func directCheck(ops []opRec) (class string, bad, because, stored *opRec) {
 var witnessBudget atomic.Int64
 
 // checkKey decides one key partition (ops on that key + whole-store deletes).
-func checkKey(ops []opRec, timeout time.Duration) keyVerdict {
+func checkKey(ops []opRec, timeout time.Duration, porcupineOnly bool) keyVerdict {
 	if less := func(i, j int) bool { return ops[i].Call < ops[j].Call }; !sort.SliceIsSorted(ops, less) {
 		sort.SliceStable(ops, less)
 	}
@@ -231,6 +232,18 @@ func checkKey(ops []opRec, timeout time.Duration) keyVerdict {
 			return v
 		}
 		timeout = 15 * time.Second
+	} else if !porcupineOnly && certify(ops) {
+		v.Result = "ok-certified"
+		// seeded sample: let porcupine confirm what the witness linearisation says
+		if len(ops) > 0 && len(ops) <= 500 && (ops[0].Call/64)%6 == 0 {
+			switch porcupine.CheckOperationsTimeout(mayForget, h, 20*time.Second) {
+			case porcupine.Ok:
+				v.Result = "ok-certified-and-porcupine"
+			case porcupine.Illegal:
+				v.Result = "disagree"
+			}
+		}
+		return v
 	}
 	switch porcupine.CheckOperationsTimeout(mayForget, h, timeout) {
 	case porcupine.Ok:
@@ -300,10 +313,25 @@ func checkerSelfTest() error {
 	witnessBudget.Store(1 << 30)
 	defer witnessBudget.Store(4)
 	for _, c := range cases {
-		v := checkKey(append([]opRec(nil), c.ops...), 10*time.Second)
+		v := checkKey(append([]opRec(nil), c.ops...), 10*time.Second, true)
 		if v.Result != c.want || v.Class != c.class {
 			return fmt.Errorf("self-test %q: got porcupine=%s class=%q, want %s/%q", c.name, v.Result, v.Class, c.want, c.class)
 		}
+		w := checkKey(append([]opRec(nil), c.ops...), 10*time.Second, false)
+		if strings.HasPrefix(w.Result, "ok") != (c.want == "ok") || w.Class != c.class {
+			return fmt.Errorf("self-test %q (fast path): got %s class=%q, want %s/%q", c.name, w.Result, w.Class, c.want, c.class)
+		}
+		if c.want == "ok" && !certify(c.ops) {
+			return fmt.Errorf("self-test %q: no witness linearisation constructed for a legal history", c.name)
+		}
+		if c.want != "ok" && certify(c.ops) {
+			return fmt.Errorf("self-test %q: witness linearisation validated for an illegal history", c.name)
+		}
+	}
+	// the validator must reject wrong orders on its own
+	two := []opRec{st(1, 100, 1, 2), hit(1, 100, 3, 4)}
+	if validateLinearization(two, []int{1, 0}) || !validateLinearization(two, []int{0, 1}) || validateLinearization(two, []int{0, 0}) {
+		return fmt.Errorf("self-test: linearisation validator accepts a wrong order")
 	}
 	return nil
 }
